@@ -730,7 +730,7 @@ def _c07():
     rt = [("ipo", {}, (2, 3)), ("pio", {}, (2, 3)), ("ipi", {}, (2, 3)), ("oo", {}, (2, 3)), ("p", {}, (2, 3)), ("pp", {}, (2, 3)), ("ipi", {"big": 1}, (2, 3)), ("ipo", {"asleep": 1}, (2, 3)),
           ("ipo", {"tokens": 1}, (2, 3)), ("ipi", {"tokens": 3, "items": 4}, (2, 2)), ("iio", {"tokens": 3, "items": 4}, (2, 2)), ("ipi", {"P": 3}, (1, 2))]
     for mk in (0, 4, 64):
-        L.append(leg("rt-objects-m%d" % mk, "c03_rt", (1, 2), {"kind": "pipeline_obj", "mask": mk}, flags=("-fp",), what="real scheduler: items that travel in library-allocated tokens pass every filter and are destroyed exactly once, also when the %s" % ("pipeline completes" if mk == 0 else "filter invocation(s) of mask %d throw" % mk)))
+        L.append(leg("rt-objects-m%d" % mk, "c03_rt", (2, 3), {"kind": "pipeline_obj", "mask": mk}, flags=("-fp",), what="real scheduler: items that travel in library-allocated tokens pass every filter and are destroyed exactly once, also when the %s" % ("pipeline completes" if mk == 0 else "filter invocation(s) of mask %d throw" % mk)))
     for m, extra, b in rt:
         prm = {"modes": m}; prm.update(extra)
         name = "rt-" + m + "".join("-%s%s" % (k, v) for k, v in extra.items())
